@@ -326,10 +326,13 @@ def case(ctx):
                         S.fmt_point(b), S.fmt_point(a)))
                     break
             else:
+                # rounding made at one step is amplified by every later (inverse) scale step, and
+                # rotations mix the two axes: bound by the product of the per-step amplifications
                 worst = 1.0
                 for step in applied:
                     if step["op"] == "scale":
-                        worst = max(worst, 1 / float(parse(step["sx"])), 1 / float(parse(step["sy"])))
+                        fx, fy = float(parse(step["sx"])), float(parse(step["sy"]))
+                        worst *= max(fx, fy, 1 / fx, 1 / fy) if fx != fy else max(1.0, 1 / fx)
                 tol = 1e-12 * (big + scale) * worst * (1 + 2 * len(applied))
                 if abs(float(a[0] - b[0])) > tol or abs(float(a[1] - b[1])) > tol:
                     case.violate("inverse history does not restore %s (got %s, tolerance %g)" % (
